@@ -92,7 +92,13 @@ package wallet
 // Every path that has outputs signed starts deriving at the stored counter and
 // stores a counter past everything it had signed before it returns successfully.
 //@ func (*Wallet).swapToSend
-//@   tags C19
+//@   tags C19 C18
+// C18: the fee added on top of the amount is the mint's input fee for exactly the proofs handed out
+// (len(split) of them: the amount outputs plus the outputs that carry the fee itself) ...
+//@   calls slices.Sort asserts @sendfee [C18] includeFees ==> feesToReceive == (len(split) * activeSatKeyset.InputFeePpk + 999) / 1000
+// ... and at the very least the fee for the amount outputs plus one more proof
+//@   calls slices.Sort asserts @sendfeemin [C18] includeFees ==> feesToReceive >= ((len(splitForSendAmount) + 1) * activeSatKeyset.InputFeePpk + 999) / 1000
+//@   requires @bound [C18] amount <= 1152921504606846976
 //@   nullable spendingCondition
 //@   requires w != nil && mint != nil && w.db != nil && w.mints != nil && winv()
 //@   calls (*Wallet).createBlindedMessages asserts @fresh [C19] counter == nil || *counter >= wal.signedupto[keysetId]
@@ -133,7 +139,9 @@ package wallet
 //@   tags C18
 //@   safety C06 C18
 //@   requires 0 <= count
-//@   ensures @ceil [C18] result == (((count * keyset.InputFeePpk) % 18446744073709551616 + 999) % 18446744073709551616) / 1000
+// A-FEESUM: no uint wrap in the fee arithmetic
+//@   presumes count * keyset.InputFeePpk < 9223372036854775808
+//@   ensures @ceil [C18] result == (count * keyset.InputFeePpk + 999) / 1000
 //@   loop 1 invariant 0 <= i && i <= count && fees == (i * keyset.InputFeePpk) % 18446744073709551616
 
 // A successful selection covers the amount plus (when asked) the input fee of exactly the proofs selected.
